@@ -220,14 +220,16 @@ Rotate(c, d, f0, wr, t) ==
                cl == Cleanup(c, o.d, o.f)
            IN [d |-> cl.d, f |-> cl.f,
                w |-> [wr EXCEPT !.ino = o.ino, !.buf = <<>>, !.idx = IF rn.ok THEN @ + 1 ELSE @,
-                                !.size = 0, !.cat = o.f[o.ino].bt]]
+                                !.size = 0, !.cat = o.f[o.ino].bt,
+                                !.buffered = c.cap > 0]]   \* open_log_file wraps the new file again (also after a reopen)
       [] c.naming = "NumD" ->
            LET nm == Num(wr.idx + 1)
                o  == Open(d, f, nm, c.append, t)
                cl == Cleanup(c, o.d, o.f)
            IN [d |-> cl.d, f |-> cl.f,
                w |-> [wr EXCEPT !.ino = o.ino, !.path = nm, !.buf = <<>>, !.idx = @ + 1,
-                                !.size = 0, !.cat = o.f[o.ino].bt]]
+                                !.size = 0, !.cat = o.f[o.ino].bt,
+                                !.buffered = c.cap > 0]]   \* open_log_file wraps the new file again (also after a reopen)
       [] c.naming = "Ts" ->
            LET tgt == CollisionFree(d, Key(c, wr.ts))
                rn  == Rename(d, Cur, tgt)
@@ -235,14 +237,16 @@ Rotate(c, d, f0, wr, t) ==
                cl  == Cleanup(c, o.d, o.f)
            IN [d |-> cl.d, f |-> cl.f,
                w |-> [wr EXCEPT !.ino = o.ino, !.buf = <<>>, !.ts = t,
-                                !.size = 0, !.cat = o.f[o.ino].bt]]
+                                !.size = 0, !.cat = o.f[o.ino].bt,
+                                !.buffered = c.cap > 0]]   \* open_log_file wraps the new file again (also after a reopen)
       [] c.naming = "TsD" ->
            LET nm == CollisionFree(d, Key(c, t))
                o  == Open(d, f, nm, c.append, t)
                cl == Cleanup(c, o.d, o.f)
            IN [d |-> cl.d, f |-> cl.f,
                w |-> [wr EXCEPT !.ino = o.ino, !.path = nm, !.buf = <<>>, !.ts = t,
-                                !.size = 0, !.cat = o.f[o.ino].bt]]
+                                !.size = 0, !.cat = o.f[o.ino].bt,
+                                !.buffered = c.cap > 0]]   \* open_log_file wraps the new file again (also after a reopen)
 
 \* std::io::BufWriter::write_all for one record of length len; lens = logged incl. this record
 RECURSIVE BytesIn(_, _)
